@@ -1,3 +1,84 @@
-//! Driver for libFuzzer campaigns (thorough tier). Filled in later.
-use crate::runner::Session;
-pub fn run_campaign(_s: &mut Session, _target: &str, _prop: &str) {}
+//! Driver for libFuzzer campaigns (thorough tier): `cargo +nightly fuzz run
+//! <target> -- -runs=N -seed=S` on a fresh corpus seeded with golden inputs.
+//! A crash artifact becomes a replay file of the matching in-process engine.
+use crate::runner::*;
+use serde_json::json;
+use std::process::Command;
+
+pub fn run_campaign(s: &mut Session, target: &str, prop: &str) {
+    let root = root();
+    let fdir = root.join("harness/fuzz");
+    if !fdir.join("Cargo.toml").exists() {
+        s.extra.insert(format!("fuzz_{target}"), json!("fuzz crate missing"));
+        return;
+    }
+    let corpus = fdir.join(format!("corpus/{target}"));
+    let artifacts = fdir.join(format!("artifacts/{target}"));
+    let _ = std::fs::remove_dir_all(&corpus);
+    let _ = std::fs::remove_dir_all(&artifacts);
+    std::fs::create_dir_all(&corpus).unwrap();
+    if let Ok(rd) = std::fs::read_dir(fdir.join(format!("seeds/{target}"))) {
+        for e in rd.flatten() {
+            let _ = std::fs::copy(e.path(), corpus.join(e.file_name()));
+        }
+    }
+    let runs: u64 = std::env::var("VERIF_FUZZ_RUNS").ok().and_then(|v| v.parse().ok()).unwrap_or(1_500_000);
+    let seed = (s.seed % 4_000_000_000).max(1);
+    let t0 = std::time::Instant::now();
+    let out = Command::new("cargo")
+        .current_dir(&fdir)
+        .env("CARGO_NET_OFFLINE", "true")
+        .args(["+nightly", "fuzz", "run", target, &format!("corpus/{target}"), "--"])
+        .args([format!("-runs={runs}"), format!("-seed={seed}"), "-max_len=600".into(), "-len_control=0".into(), "-print_final_stats=1".into(), "-timeout=10".into()])
+        .output();
+    let out = match out {
+        Ok(o) => o,
+        Err(e) => {
+            s.extra.insert(format!("fuzz_{target}"), json!(format!("could not start cargo fuzz: {e}")));
+            return;
+        }
+    };
+    let stderr = String::from_utf8_lossy(&out.stderr).to_string();
+    let execs = stderr.lines().find_map(|l| l.strip_prefix("stat::number_of_executed_units:").map(|x| x.trim().parse::<u64>().unwrap_or(0))).unwrap_or(0);
+    let cov = stderr.lines().rev().find_map(|l| l.split("cov: ").nth(1).map(|x| x.split_whitespace().next().unwrap_or("").to_string())).unwrap_or_default();
+    let corpus_n = std::fs::read_dir(&corpus).map(|d| d.count()).unwrap_or(0);
+    let mut crashes = vec![];
+    if let Ok(rd) = std::fs::read_dir(&artifacts) {
+        for e in rd.flatten() {
+            let name = e.file_name().to_string_lossy().to_string();
+            if name.starts_with("crash-") || name.starts_with("timeout-") || name.starts_with("oom-") {
+                crashes.push(e.path());
+            }
+        }
+    }
+    s.extra.insert(
+        format!("fuzz_{target}"),
+        json!({"engine": "libFuzzer via cargo-fuzz", "runs_requested": runs, "executions": execs, "final_coverage_edges": cov, "corpus_files": corpus_n, "seed": seed, "crashes": crashes.len(), "wall_s": t0.elapsed().as_secs_f64(), "exit_ok": out.status.success()}),
+    );
+    // count the campaign as evaluations (not as distinct non-trivial cases: libFuzzer does not report those)
+    s.total.evaluations += execs;
+    for c in crashes {
+        let bytes = std::fs::read(&c).unwrap_or_default();
+        let is_crash = c.file_name().unwrap().to_string_lossy().starts_with("crash-");
+        if !is_crash {
+            // timeouts / OOM are infrastructure signals, not violations
+            s.e2e_inconclusive += 1;
+            continue;
+        }
+        let (engine, case) = match target {
+            "tlv" => ("pure-tlv", json!({"Bytes": hex::encode(&bytes)})),
+            _ => ("fuzz-request", json!({"input": hex::encode(&bytes)})),
+        };
+        let viol = Violation::new(prop, "libfuzzer_crash", format!("libFuzzer target `{target}` crashed (panic or oracle assertion) on input {}", hex::encode(&bytes)));
+        let body = json!({"property": prop, "engine": engine, "case": case, "violations": [viol.clone()]});
+        let text = serde_json::to_string_pretty(&body).unwrap();
+        let dir = root.join("replays/found");
+        let _ = std::fs::create_dir_all(&dir);
+        let path = dir.join(format!("{}-fuzz-{:016x}.json", prop, fp_of(&text)));
+        std::fs::write(&path, text).unwrap();
+        s.failures.push(Failure { replay_path: path, violations: vec![viol] });
+    }
+    if !out.status.success() && s.failures.is_empty() {
+        s.extra.insert(format!("fuzz_{target}_stderr_tail"), json!(stderr.lines().rev().take(15).collect::<Vec<_>>()));
+    }
+}
